@@ -26,7 +26,7 @@ def mask(x):
 
 
 def mk(d, m):
-    return np.ma.masked_array(d, mask=np.broadcast_to(m, np.shape(d)))
+    return np.ma.masked_array(np.array(d), mask=np.array(np.broadcast_to(m, np.shape(d))))
 
 
 def nullred(f, x, neutral, **kw):
